@@ -161,6 +161,7 @@ type drv17 struct {
 	nextID   int
 	reaperOn bool
 	accLive  bool
+	diverged bool
 }
 
 func (d *drv17) emit(label string, obs ...uint64) {
@@ -192,7 +193,12 @@ func (d *drv17) servedIDs() []uint64 {
 func (d *drv17) observe(expGor int) []uint64 {
 	expCnt := len(d.reg)
 	var cnt, act, gor int
-	for i := 0; i < 4000; i++ {
+	limit := 2 * time.Second
+	if d.diverged {
+		limit = 20 * time.Millisecond // the server has already left the expected path once: do not wait again
+	}
+	deadline := time.Now().Add(limit)
+	for {
 		cnt, act = d.srv.VerifLTSConnCounts()
 		var reading int
 		gor, reading = serverGoroutines2()
@@ -202,10 +208,18 @@ func (d *drv17) observe(expGor int) []uint64 {
 		if cnt == expCnt && act == expCnt && gor == expGor && reading >= expCnt {
 			break
 		}
+		if time.Now().After(deadline) {
+			d.diverged = true
+			d.tags["diverged_observations"]++
+			break
+		}
 		time.Sleep(500 * time.Microsecond)
 	}
 	if cnt < 0 {
 		cnt = 1 << 30
+	}
+	if gor < 0 {
+		gor = 0
 	}
 	out := []uint64{uint64(cnt), uint64(act), uint64(gor)}
 	return append(out, d.servedIDs()...)
@@ -579,9 +593,9 @@ func runC17(s sched17, kind string, idx int) Case {
 			open := len(kept) + len(d.served())
 			pk := int(atomic.LoadInt64(&peak)) + len(d.served())
 			var cnt, act int
-			for i := 0; i < 4000; i++ {
+			for dl := time.Now().Add(2 * time.Second); ; {
 				cnt, act = d.srv.VerifLTSConnCounts()
-				if cnt == open && act == open {
+				if (cnt == open && act == open) || time.Now().After(dl) {
 					break
 				}
 				time.Sleep(500 * time.Microsecond)
